@@ -144,7 +144,7 @@ PROPS = {
         ],
     },
     "C05": {
-        "units": ["verify", "verify_rel", "transcripts", "codec"],
+        "units": ["verify", "verify_rel", "transcripts", "codec", "lemmas"],
         "design_ref": "DESIGN.md section 7, C05",
         "technique": "contract-based deductive verification (Verus): every proof element and statement field is proved to occur in the specified transcript log before the challenges that must depend on it, or in the specified residual; shape checks and point decoding are postconditions of Ok; rejections are Err values (panic freedom)",
         "claim": "Proved on the real verifier: (i) A, every L_j/R_j, A1, B and all statement data are absorbed before the challenges that follow them (C04) and r1, s1, every d1_k are absorbed "
@@ -154,7 +154,7 @@ PROPS = {
                  "independence of the generators (discrete log) and the random oracle: not decidable by contracts.",
         "assumptions": [
             "rejection of a single altered element is a cryptographic statement (discrete log + random oracle) and is not claimed; what is proved is that no element is ignored",
-            "nonzero-ness of each coefficient (w, e, y, s_i != 0) follows from the challenge and weight contracts; the per-element lemma is not separately stated",
+            "nonzero-ness of the coefficient of every commitment, of A, A1, B and of every L_j / R_j is a proved lemma (C05.lemma_every_dynamic_coefficient_nonzero) from w, e, y, z, e_j != 0, which the weight and challenge contracts establish; for the response scalars r1, s1, d1 (which enter the generator coefficients) no such lemma is stated",
         ],
     },
     "C07": {
